@@ -34,6 +34,9 @@ def get_annotation_typestr(field: Union[BaseField, Type, str]) -> str:
         storage_type = field
     elif field is None:
         storage_type = "None"
+    elif getattr(field, "__module__", None) == "typing":
+        # typing constructs (Optional[int], List[str], ...) are not classes; their repr is valid
+        storage_type = repr(field)
     else:
         raise TypeError("Unknown storage_type: %s" % type(field))
 
